@@ -233,6 +233,10 @@ class Engine:
         for (o, _c, _k) in p.allocs:
             p.assume(r != o)
         self.distinct_from_args(p, r)
+        for v_ in p.env.values():          # a new object is none of the objects the locals refer to
+            t_ = getattr(v_, "ref", None) if isinstance(v_, (VList, VSet, VDict)) else (v_.term if isinstance(v_, VRef) else None)
+            if t_ is not None and not t_.eq(NONE):
+                p.assume(r != t_)
         p.schemas.extend(self.freshness_schemas(r, p.st, container=(kind == "container")))
         if kind == "container":
             p.st.write("selems", r, z3.Empty(T.SSeq))       # same default as contracts.OutcomeBuilder.fresh
